@@ -372,6 +372,21 @@ def c04_group(run, Nmax=2, count=25):
                     b.fail('inverse', 'a.compose(a.inverse()) or a.inverse().compose(a) is not the identity', {'gs': lst(a.gs), 'ps': lst(a.ps)})
                 if inv.gs is a.gs or np.shares_memory(inv.gs, a.gs):
                     b.fail('inverse_fresh', 'inverse shares memory with its operand', {})
+            # inversion returns a NEW map every time, and stays correct after the receiver was changed in place
+            if ok:
+                inv2 = a.inverse()
+                if inv2 is inv or np.shares_memory(inv2.gs, inv.gs) or np.shares_memory(inv2.ps, inv.ps):
+                    b.fail('inverse_fresh', 'two calls of inverse() return the same object / shared arrays', {'gs': lst(a.gs)})
+                inv.gs[0, 0] ^= 1          # the caller owns the returned map: changing it must not affect later answers
+                inv3 = a.inverse()
+                if not map_eq(a.compose(inv3), ident):
+                    b.fail('inverse_after_mutating_result', 'inverse() is wrong after the previously returned inverse was modified', {'gs': lst(a.gs), 'ps': lst(a.ps)})
+                a2 = CM(a.gs, a.ps)
+                a2.inverse()
+                g_ = gens.bits(rng, 2 * N)
+                a2.rotate_by(P(g_, 0))
+                if not (map_eq(a2.compose(a2.inverse()), ident) and map_eq(a2.inverse().compose(a2), ident)):
+                    b.fail('inverse_after_inplace_update', 'inverse() is stale after the map was rotated in place', {'gs': lst(a.gs), 'ps': lst(a.ps), 'G': lst(g_)})
             if not (map_eq(a.compose(ident), a) and map_eq(ident.compose(a), a)):
                 b.fail('identity', 'identity map is not neutral', {'gs': lst(a.gs), 'ps': lst(a.ps)})
             if not ((a.gs == a0[0]).all() and (a.ps == a0[1]).all()):
